@@ -4,7 +4,9 @@ import (
 	"fmt"
 	"go/token"
 	"go/types"
+	"regexp"
 	"sort"
+	"strconv"
 	"strings"
 
 	"golang.org/x/tools/go/ssa"
@@ -454,10 +456,56 @@ func (w *World) returnTable(fn *ssa.Function) []string {
 			}
 		}
 		sort.Strings(conds)
+		// a helper that delegates to a sibling (nodeSliceLast = nodeSliceIndex(ns, len(ns)-1)): the sibling's table with
+		// its parameters replaced by the arguments
+		if c, ok := stripIface(ret.Results[0]).(*ssa.Call); ok && !c.Call.IsInvoke() {
+			if cal := c.Call.StaticCallee(); cal != nil && cal != fn && fnPkgPath(cal) == modRoot+"/ast" && cal.Blocks != nil && len(naturalLoops(cal)) == 0 && w.tableDepth < 3 {
+				w.tableDepth++
+				sub := w.returnTable(cal)
+				w.tableDepth--
+				var args []string
+				for _, a := range c.Call.Args {
+					args = append(args, normValue(fn, a, 0))
+				}
+				okSub := len(sub) > 0
+				for _, row := range sub {
+					i := strings.Index(row, "] -> ")
+					if i < 0 {
+						okSub = false
+					}
+				}
+				if okSub {
+					for _, row := range sub {
+						i := strings.Index(row, "] -> ")
+						cs, term := substParams(row[1:i], args), substParams(row[i+5:], args)
+						all := append([]string{}, conds...)
+						if cs != "" {
+							all = append(all, strings.Split(cs, " & ")...)
+						}
+						sort.Strings(all)
+						out = append(out, "["+strings.Join(all, " & ")+"] -> "+term)
+					}
+					continue
+				}
+			}
+		}
 		out = append(out, "["+strings.Join(conds, " & ")+"] -> "+normValue(fn, ret.Results[0], 0))
 	}
 	sort.Strings(out)
 	return out
+}
+
+var paramRef = regexp.MustCompile(`\bp(\d+)\b`)
+
+// substParams replaces the parameter placeholders p0, p1, … of a table row by argument terms.
+func substParams(s string, args []string) string {
+	return paramRef.ReplaceAllStringFunc(s, func(m string) string {
+		i, _ := strconv.Atoi(m[1:])
+		if i < len(args) {
+			return args[i]
+		}
+		return m
+	})
 }
 
 func ruleC19Helpers(w *World, r *Report) {
@@ -473,31 +521,34 @@ func ruleC19Helpers(w *World, r *Report) {
 		"wrapNode":       {"[!(p0==nil)] -> p0", "[(p0==nil)] -> nil"},
 	}
 	checked := map[string]bool{}
-	for _, fn := range w.ModFns {
-		if fnPkgPath(fn) != modRoot+"/ast" || fn.Parent() != nil {
-			continue
-		}
-		name := fn.Name()
-		if o := fn.Origin(); o != nil {
-			name = o.Name()
-		}
-		if fn.TypeParams().Len() > 0 && len(fn.TypeArgs()) == 0 {
-			continue
-		}
-		exp, ok := want[name]
-		if !ok {
-			continue
-		}
-		got := w.returnTable(fn)
-		// wrapNode instances over interface types compare with the zero value as nil as well
-		if strings.Join(got, "; ") == strings.Join(exp, "; ") {
-			if !checked[name] {
-				r.ok(rule, "contract of ast."+name, w.pos(fn.Pos()), strings.Join(got, "; "))
+	for pass := 0; pass < 2; pass++ {
+		for _, fn := range w.ModFns {
+			if fnPkgPath(fn) != modRoot+"/ast" || fn.Parent() != nil {
+				continue
 			}
-			checked[name] = true
-		} else {
-			checked[name] = true
-			r.bad(rule, "contract of ast."+funcName(fn), w.pos(fn.Pos()), fmt.Sprintf("behaves as {%s}, contract is {%s}", strings.Join(got, "; "), strings.Join(exp, "; ")))
+			name := fn.Name()
+			if o := fn.Origin(); o != nil {
+				name = o.Name()
+			}
+			// instances first; the generic body itself only for a helper that nothing instantiates (any more)
+			if generic := fn.TypeParams().Len() > 0 && len(fn.TypeArgs()) == 0; generic != (pass == 1) || (pass == 1 && checked[name]) {
+				continue
+			}
+			exp, ok := want[name]
+			if !ok {
+				continue
+			}
+			got := w.returnTable(fn)
+			// wrapNode instances over interface types compare with the zero value as nil as well
+			if strings.Join(got, "; ") == strings.Join(exp, "; ") {
+				if !checked[name] {
+					r.ok(rule, "contract of ast."+name, w.pos(fn.Pos()), strings.Join(got, "; "))
+				}
+				checked[name] = true
+			} else {
+				checked[name] = true
+				r.bad(rule, "contract of ast."+funcName(fn), w.pos(fn.Pos()), fmt.Sprintf("behaves as {%s}, contract is {%s}", strings.Join(got, "; "), strings.Join(exp, "; ")))
+			}
 		}
 	}
 	for name := range want {
@@ -682,4 +733,106 @@ func condPosOf(iff *ssa.If, b *ssa.BasicBlock) token.Pos {
 		return v.Pos()
 	}
 	return lastPos(b)
+}
+
+// helperSynonyms: helpers of package ast that the generated methods may call besides the canonical ones, each with the
+// canonical call it is equal to: its table 'conditions -> returned term' is the canonical helper's table with the extra
+// parameter fixed to 0 (nodeSliceFirst(xs) ≡ nodeSliceIndex(xs, 0)). Used by C19/R1 to compare a method body that
+// names such a helper with the checker's own translation of the specification.
+func (w *World) helperSynonyms() map[string]string {
+	if w.synonyms != nil {
+		return w.synonyms
+	}
+	w.synonyms = map[string]string{}
+	canonical := map[string]*ssa.Function{}
+	var others []*ssa.Function
+	canonNames := map[string]bool{"nodePos": true, "nodeEnd": true, "posAdd": true, "ifThenElse": true, "nodeSliceIndex": true, "nodeSliceLast": true, "wrapNode": true, "posChoice": true, "nodeChoice": true}
+	seen := map[string]bool{}
+	for _, fn := range w.ModFns {
+		if fnPkgPath(fn) != modRoot+"/ast" || fn.Parent() != nil || fn.Signature.Recv() != nil || fn.Blocks == nil {
+			continue
+		}
+		name := fn.Name()
+		if o := fn.Origin(); o != nil {
+			name = o.Name()
+		}
+		if seen[name] || len(naturalLoops(fn)) > 0 {
+			continue
+		}
+		seen[name] = true // an instance or the generic body itself (a helper nothing instantiates any more): same table
+		if canonNames[name] {
+			canonical[name] = fn
+		} else if fn.Signature.Results().Len() == 1 && len(fn.Params) >= 1 && len(fn.Params) <= 2 && !token.IsExported(name) {
+			others = append(others, fn)
+		}
+	}
+	for _, h := range others {
+		ht := strings.Join(w.returnTable(h), "; ")
+		if ht == "" || strings.Contains(ht, "?") {
+			continue
+		}
+		name := h.Name()
+		if o := h.Origin(); o != nil {
+			name = o.Name()
+		}
+		for cn, c := range canonical {
+			if len(c.Params) != len(h.Params)+1 {
+				continue
+			}
+			args := make([]string, len(c.Params))
+			for i := range h.Params {
+				args[i] = fmt.Sprintf("p%d", i)
+			}
+			args[len(c.Params)-1] = "0"
+			var rows []string
+			for _, row := range w.returnTable(c) {
+				rows = append(rows, substParams(row, args))
+			}
+			sort.Strings(rows)
+			if strings.Join(rows, "; ") == ht {
+				w.synonyms[name] = cn
+			}
+		}
+	}
+	return w.synonyms
+}
+
+var callHead = regexp.MustCompile(`\b([A-Za-z_][A-Za-z0-9_]*)\(`)
+
+// canonicalHelpers rewrites calls of synonym helpers in a Go expression (H(args) -> C(args, 0)).
+func (w *World) canonicalHelpers(e string) string {
+	syn := w.helperSynonyms()
+	for changed := true; changed; {
+		changed = false
+		for _, m := range callHead.FindAllStringSubmatchIndex(e, -1) {
+			name := e[m[2]:m[3]]
+			cn, ok := syn[name]
+			if !ok {
+				continue
+			}
+			// matching parenthesis
+			depth, end := 0, -1
+			for i := m[3]; i < len(e); i++ {
+				switch e[i] {
+				case '(':
+					depth++
+				case ')':
+					depth--
+					if depth == 0 {
+						end = i
+					}
+				}
+				if end >= 0 {
+					break
+				}
+			}
+			if end < 0 {
+				return e
+			}
+			e = e[:m[2]] + cn + e[m[3]:end] + ", 0" + e[end:]
+			changed = true
+			break
+		}
+	}
+	return e
 }
